@@ -14,6 +14,16 @@ func vC06Reduce(nparts int, kinds int, order bool, compl bool) {
 	for _, p := range parts {
 		in = append(in, vAtoms(p)...)
 	}
+	if vNestFirst && nparts >= 3 {
+		// the first two parts arrive already combined (a nested order / join that is not in the last position)
+		var inner Location
+		if order {
+			inner = Order(parts[0], parts[1])
+		} else {
+			inner = Join(parts[0], parts[1])
+		}
+		parts = append([]Location{inner}, parts[2:]...)
+	}
 	var out Location
 	if order {
 		out = Order(parts...)
@@ -42,14 +52,22 @@ func vC06Reduce(nparts int, kinds int, order bool, compl bool) {
 	vObserve("o0.e", os[0].e)
 }
 
-//verif:harness prop=C06 quick=4 thorough=10
-//verif:bounds Join/Order of 2..3 (quick) / 2..5 (thorough) atoms of all four kinds (5 parts: three kinds), plain and complemented; coordinates and L symbolic in [0,2^40]
+var vNestFirst bool
+
+//verif:harness prop=C06 quick=6 thorough=12
+//verif:bounds Join/Order of 2..3 (quick) / 2..5 (thorough) atoms of all four kinds (5 parts: three kinds), plain and complemented, and with the first two parts pre-combined into a nested order/join; coordinates and L symbolic in [0,2^40]
 func VH_C06_reduction() {
 	n := 4
 	if vTier() == 1 {
 		n = 10
 	}
-	switch vShard(n) {
+	sh := vShard(n + 2)
+	if sh >= n {
+		vNestFirst = true
+		vC06Reduce(3, 4, sh == n, false)
+		return
+	}
+	switch sh {
 	case 0:
 		vC06Reduce(2, 4, false, false)
 	case 1:
@@ -97,13 +115,13 @@ func vC06PrintParse(fam int, kinds int, cap int) {
 	vObserve("len", len(s))
 }
 
-//verif:harness prop=C06 quick=8 thorough=14 merge=concrete
-//verif:bounds print->parse: constructor-built locations, every partial combination; quick: atoms with coordinates in [0,999], 2-part families 1..5 and the nested families 16,17 (complement of a join inside a join; ranged/point parts) with coordinates in [0,8] (one digit); thorough: atoms in [0,99999], 2-part families in [0,99], 3-part families 6..10 and nested 16..18 in [0,8]; String() via the decimal-digit model, AsLocation via the real pars parser
+//verif:harness prop=C06 quick=11 thorough=16 merge=concrete
+//verif:bounds print->parse: constructor-built locations, every partial combination; quick: atoms with coordinates in [0,999], 2-part families 1..5 and the nested families 16..20 (complement of a join inside a join/order, order inside order, join inside order; ranged/point parts) with coordinates in [0,8] (one digit); thorough: atoms in [0,99999], 2-part families in [0,99], 3-part families 6..10 and nested 16..20 in [0,8]; String() via the decimal-digit model, AsLocation via the real pars parser
 func VH_C06_print_parse() {
-	n := vFamS1 + 2
+	n := vFamS1 + 5
 	base := vFamS1
 	if vTier() == 1 {
-		n, base = vFamS2+3, vFamS2
+		n, base = vFamS2+5, vFamS2
 	}
 	fam := vShard(n)
 	if fam >= base {
